@@ -339,9 +339,11 @@ def match_wildcard(name: Optional[str], wildcard: str) -> bool:
 
 def escape_json_string(s: str, escaped: bool = False) -> str:
     if escaped:
-        s = s.replace('\\"', '"')
-    else:
-        s = s.replace('\\', '\\\\')
+        # escape sequences are kept as they are, the runs between them are escaped
+        return re.sub(r'\\.|[^\\]+', lambda m: m.group(0) if m.group(0)[0] == '\\'
+                      else escape_json_string(m.group(0)), s, flags=re.DOTALL)
+
+    s = s.replace('\\', '\\\\')
 
     s = s.replace('\"', '\\"').\
         replace('\b', r'\b').\
